@@ -224,7 +224,8 @@ def run_case(case):
         if rd.get("categories") and claimed_categories:
             catarg = list(claimed_categories) if rd["categories"] == "list" else dict(claimed_categories)
             kw["categories"] = catarg
-        elif rd.get("categories") and src == "foreign":
+        elif rd.get("categories") and src == "foreign" and case.get("pandas_meta", "none") == "none":
+            # (with pandas metadata the library refuses categories= for a column the metadata does not call categorical)
             # columns that are not categorical by default but can be asked for as such: text columns of which every chunk
             # is dictionary-encoded throughout
             sizes = _dict_encoded_text_columns(case)
